@@ -201,6 +201,21 @@ class ServerFacts:
                     out[verb] = items
         return out
 
+    def abor_touches_only_workers(self):
+        """True only when `Server.abor` reads and writes nothing of the session but `extra_workers` and `response`
+        (no data connection, listener, restart offset, login state ...), and calls nothing of the server"""
+        node = self.methods["abor"]
+        for n in ast.walk(node):
+            if isinstance(n, ast.Attribute) and isinstance(n.value, ast.Name) and n.value.id == "connection" and n.attr not in ("extra_workers", "response"):
+                return False
+            if isinstance(n, ast.Attribute) and isinstance(n.value, ast.Name) and n.value.id == "self":
+                return False
+            if isinstance(n, ast.Subscript) and isinstance(n.value, ast.Name) and n.value.id == "connection":
+                return False
+            if isinstance(n, ast.Call) and isinstance(n.func, ast.Name) and n.func.id in ("getattr", "setattr", "delattr", "vars"):
+                return False
+        return True
+
     def abor_counts_finished(self):
         """does ABOR treat a worker task that has already finished as "something to abort"?
         False only when the tested collection is built with a `not <w>.done()` filter; any shape the
@@ -761,6 +776,8 @@ def gen_server():
     lines.append("def cancelledIsOSError : Bool := %s" % ("true" if issubclass(asyncio.CancelledError, OSError) else "false"))
     lines.append("/-- ABOR counts a finished-but-unreaped worker task as something to abort -/")
     lines.append("def aborCountsFinished : Bool := %s" % ("true" if F.abor_counts_finished() else "false"))
+    lines.append("/-- `Server.abor` touches nothing of the session but `extra_workers` and `response` -/")
+    lines.append("def aborTouchesOnlyWorkers : Bool := %s" % ("true" if F.abor_touches_only_workers() else "false"))
     lines.append("/-- `_start_passive_server` puts the port back when the awaited start-up is cancelled -/")
     lines.append("def passiveCancelReturnsPort : Bool := %s" % ("true" if F.passive_cancel_returns_port() else "false"))
     lines.append("/-- PASV and EPSV test for an existing listener, start one and record it inside `async with` on a per-connection lock -/")
